@@ -158,13 +158,19 @@ impl DefaultMetricSearcher {
         let mut sec = 0;
 
         let mut reader = Cursor::new(index_data);
+        let mut found = false;
         while let Ok(sec_be) = ReadBytesExt::read_u64::<BigEndian>(&mut reader) {
             sec = sec_be;
             let offset_be = ReadBytesExt::read_u64::<BigEndian>(&mut reader)?;
             offset = offset_be;
             if sec >= begin_sec {
+                found = true;
                 break;
             }
+        }
+        if !found {
+            // no second at or after the begin time in this file: the caller goes on to the next file
+            return Err(Error::msg("no index entry at or after the begin time"));
         }
 
         // Cache the idx filename and position
